@@ -1459,6 +1459,27 @@ def gen_refs(seed):
             h = st["out"]
             pol_only = True
     h = g.chain(h, rng.randint(0, 3), REF_WEIGHTS, depth=1)
+    if rng.random() < 0.2 and not g.rr.env[h].group and not pol_only:
+        # a renamed column (explicitly, or by a join suffix) as grouping key of a summarize: the result carries the
+        # current name, `derived[t.x].name` reports it and C.<current name> finds it
+        t0 = g.rr.env[h]
+        cands = [(n, i) for n, i in t0.vis if t0.cols[i].fam in ("int", "bool", "str") and t0.cols[i].name0 != n]
+        if not cands:
+            pick = [(n, i) for n, i in t0.vis if t0.cols[i].fam in ("int", "bool", "str") and t0.cols[i].name0 != "k"]
+            if pick:
+                n0, i0 = rng.choice(pick)
+                rn = {"in": h, "out": g.new_handle(), "verb": "rename", "map": [[n0, n0 + "_rn"]]}
+                if g.try_step(rn):
+                    h = rn["out"]
+                    cands = [(n0 + "_rn", i0)]
+        if cands:
+            gn, gi = rng.choice(cands)
+            gb = {"in": h, "out": g.new_handle(), "verb": "group_by", "cols": [g._ref_for(h, gi, gn) if rng.random() < 0.6 else cname(gn)]}
+            if g.try_step(gb):
+                sm = g.step_summarize(gb["out"])
+                if sm is not None and g.try_step(sm):
+                    h = sm["out"]
+                    g.features.add("renamed_group_key_summarized")
     probes = []
     if not g.rr.env[h].group or True:
         st = _probe_refs(g, h)
